@@ -13,6 +13,22 @@ Clauses of the property and where they are stated (all over `Rat`, any table siz
   * "every constraint exceeds its bound by at most (1 + 2 g)/B"        saddle_violation
   * L_high is the lambda-player's best response value                   lHigh_is_max
   * "whenever fitting stops before max_iter iterations, best_gap_ < nu" early_stop_lt_nu, best_iter_spec
+
+Extension (same namespace, sections below), all for every run length and ANY oracle answers:
+  * the MAIN LOOP as a state machine (Model/EGLoop.lean over Generated/EGLoopGen.lean)
+        loop_lambda_bounds, loop_lambdaEG_bounds (lambda_t, lambda_EG >= 0, L1 < B, from positivity of exp only),
+        loop_QEG_prob, loop_Q_prob, loop_weights_prob, loop_weights_padded_prob ("weights_ ... a probability vector"),
+        loop_eta_formula, loop_eta_nonincreasing, loop_iterations, loop_lengths, loop_oracle_calls,
+        loop_early_stop (the early-stop clause for the modelled loop itself)
+  * the two LPs of solve_linprog (Model/LinProg.lean over Generated/LinProgGen.lean)
+        lp_feasible_iff, lp_feasible_iff_distribution, lp_objective, lp_objective_ge_lagr, lp_lHigh_feasible,
+        lp_objective_ge_lHigh, dual_feasible_iff, dual_objective, lp_weak_duality, lp_gap_zero_optimal
+  * the certificate `eval_gap` computes ([1,2,5,10] loop, early break, best_h cache), in the property's words
+        evalGap_gap_le_classGap (ANY class-member oracle: reported gap <= true gap),
+        evalGap_Llow_le_class / classGap_le_evalGap_gap (exact oracle at mul = 1: true gap <= reported gap + _PRECISION),
+        precision_slack_needed (the slack cannot be dropped), evalGap_guarantees, evalGap_saddle_point,
+        loop_certificate, loop_guarantees, loop_guarantees_end_to_end (the two guarantees for the OUTPUT of the loop),
+        best_h_store, best_h_returned (cache), project_raises_L (the project_lambda step of _eval)
 -/
 import FairModel.Lemmas.Saddle
 import FairModel.Lemmas.EGLoop
@@ -718,6 +734,45 @@ theorem evalGap_guarantees (X : Ctx) (O : Nat → Hyp) (TC : Table) (hc : TC.nC 
     have hcj : (tableOf X.c hs).c j = vec X.c j := rfl
     rw [hcj] at this
     linarith
+
+/-- **The saddle-point statement itself** (Agarwal et al. 2018, Theorem 1, for what `eval_gap` certifies): with
+    `g` the reported gap and `lambda^ = project(lambda_hat)` the multiplier the gap is evaluated at,
+    (i) no multiplier `lambda >= 0` with `|lambda|_1 <= B` raises the Lagrangian of `Q` above `L(Q, lambda^) + g`
+        — needs nothing about the oracle —, and
+    (ii) no distribution `Q'` over the class lowers it below `L(Q, lambda^) - g - _PRECISION`
+        — needs class-member answers and exactness of the one call at `mul = 1`. -/
+theorem evalGap_saddle_point (X : Ctx) (O : Nat → Hyp) (TC : Table) (hc : TC.nC = X.c.length) (hcc : TC.c = vec X.c)
+    (ha : AntiSym X TC) (hs : List Hyp) (hmem : Members TC hs) (k : Nat) (Q lamHat : List Rat)
+    (hOk : ∃ i, IsMember TC (O k) i) (hexact : ∀ i < TC.nH, storedValue lamHat (O k) ≤ classValue TC lamHat i) :
+    (∀ lam : Nat → Rat, (∀ j < X.c.length, 0 ≤ lam j) → ∑ j ∈ range X.c.length, lam j ≤ X.B →
+      lagr (tableOf X.c hs) (vec Q) lam
+        ≤ lagr (tableOf X.c hs) (vec Q) (projLam X lamHat) + (evalGap X O hs k Q lamHat).2.2.gap) ∧
+    (∀ Q' : Nat → Rat, ∑ i ∈ range TC.nH, Q' i = 1 → (∀ i < TC.nH, 0 ≤ Q' i) →
+      lagr (tableOf X.c hs) (vec Q) (projLam X lamHat) - (evalGap X O hs k Q lamHat).2.2.gap - EGGen.precision
+        ≤ lagr TC Q' (projLam X lamHat)) := by
+  obtain ⟨hL, hH, _⟩ := evalGap_fields X O hs k Q lamHat
+  have hle := evalGap_Llow_le_class X O TC hc hcc ha hs hmem k Q lamHat hOk hexact
+  have hg : (evalGap X O hs k Q lamHat).2.2.L - (evalGap X O hs k Q lamHat).2.2.Llow ≤ (evalGap X O hs k Q lamHat).2.2.gap ∧
+      (evalGap X O hs k Q lamHat).2.2.Lhigh - (evalGap X O hs k Q lamHat).2.2.L ≤ (evalGap X O hs k Q lamHat).2.2.gap := by
+    unfold GapRes.gap EGGen.gapOf
+    exact ⟨max2_ge_left _ _, max2_ge_right _ _⟩
+  constructor
+  · intro lam hl hB
+    have := lagr_le_lHigh (tableOf X.c hs) X.B (vec Q) lam hl hB
+    rw [← hH] at this
+    rw [← hL]
+    linarith [hg.2]
+  · intro Q' hsum hnn
+    rw [lagr_mix TC Q' _ hsum, ← hL]
+    calc (evalGap X O hs k Q lamHat).2.2.L - (evalGap X O hs k Q lamHat).2.2.gap - EGGen.precision
+        ≤ (evalGap X O hs k Q lamHat).2.2.Llow - EGGen.precision := by linarith [hg.1]
+      _ = ∑ i ∈ range TC.nH, Q' i * ((evalGap X O hs k Q lamHat).2.2.Llow - EGGen.precision) := by
+          rw [← Finset.sum_mul, hsum, one_mul]
+      _ ≤ ∑ i ∈ range TC.nH, Q' i * lPure TC (projLam X lamHat) i := by
+          apply Finset.sum_le_sum
+          intro i hi
+          have hi' := Finset.mem_range.mp hi
+          exact mul_le_mul_of_nonneg_left (by linarith [hle i hi']) (hnn i hi')
 
 /-- **(3b) for the OUTPUT of the modelled loop, any run, any oracle answers from the class**: the returned gap
     `best_gap_ = gaps[best_iter_]` IS the gap `eval_gap` computed for the returned `weights_ = Qs[best_iter_]` in one
